@@ -252,7 +252,7 @@ pub fn main() {
                 }
             };
             let ud = std::env::var("XDG_DATA_HOME").unwrap();
-            if ud.starts_with("/tmp/riti-verif-ud-") { let _ = std::fs::remove_dir_all(&ud); }
+            if ud.contains("/riti-verif-ud-") { let _ = std::fs::remove_dir_all(&ud); }
             println!("{r}");
         }
         _ => {
